@@ -26,6 +26,7 @@ CONFIGS = {
   'quick': [
     ('n=3 min1 max2 hi1.0 traffic+time', cfg(3, 1, 2, 1.0, ops=TRAFFIC, advs=[0, 2, 3], max_out=4), 8),
     ('n=4 min2 max3 hi2.0 traffic+time+failures', cfg(4, 2, 3, 2.0, ops=TRAFFIC + ['Down', 'Up'], advs=[1, 3], max_out=5, max_down=1), 7),
+    ('n=3 min1 max2 hi1.0 requests 0.4 ms apart', cfg(3, 1, 2, 1.0, ops=TRAFFIC, advs=[4, 2], max_out=4), 7),
     ('n=3 min1 unbounded hi1.0 joins/leaves', cfg(3, 1, 2 ** 31, 1.0, extra=1, ops=TRAFFIC + ['Join', 'Leave'], advs=[2, 3], max_out=4,
                                               max_notifications=2), 7),
     ('n=3 min1 max3 hi1.0 pending opens', cfg(3, 1, 3, 1.0, ops=TRAFFIC + ['Open'], advs=[2, 3], max_out=4, open_mode='pending', ok_first=1), 7),
@@ -39,6 +40,7 @@ CONFIGS = {
   'thorough': [
     ('n=3 min1 max2 hi1.0 traffic+time', cfg(3, 1, 2, 1.0, ops=TRAFFIC, advs=[0, 1, 2, 3], max_out=5), 9),
     ('n=4 min2 max3 hi2.0 traffic+time+failures', cfg(4, 2, 3, 2.0, ops=TRAFFIC + ['Down', 'Up'], advs=[1, 3], max_out=6, max_down=2), 8),
+    ('n=3 min1 max2 hi1.0 requests 0.4 ms apart', cfg(3, 1, 2, 1.0, ops=TRAFFIC, advs=[4, 2], max_out=4), 8),
     ('n=4 min1 unbounded hi1.0 joins/leaves', cfg(4, 1, 2 ** 31, 1.0, extra=1, ops=TRAFFIC + ['Join', 'Leave', 'Down', 'Up'], advs=[2, 3],
                                               max_out=5, max_notifications=3, max_down=1), 8),
     ('n=4 min2 max4 hi1.0 pending opens', cfg(4, 2, 4, 1.0, ops=TRAFFIC + ['Open', 'Down'], advs=[2, 3], max_out=5, max_down=1,
